@@ -74,6 +74,9 @@ def build(cls_name, xp, m: Model):
     kw = dict(x=xp.asarray(m.x), log_likelihood=f(m.ll), log_prior=f(m.lp), log_q=f(m.lq), parameters=list(m.params), xp=xp, dtype=m.dtype)
     if cls_name == "SMCSamples":
         kw.update(beta=m.beta, log_evidence=m.le, log_evidence_error=m.lee)
+    elif cls_name == "Samples" and not m.weighted and m.le is not None:
+        # the kind of set the samplers return: no weights, evidence attached
+        kw.update(log_evidence=m.le, log_evidence_error=m.lee)
     return C(**kw)
 
 
@@ -174,6 +177,9 @@ def fresh_model(g, cls_name, dtype, n=None, d=None, fields=None, params=None):
         if g.random() < 0.5:
             m.le = float(g.normal())
             m.lee = float(abs(g.normal()) * 0.1)
+    elif cls_name == "Samples" and not m.weighted and g.random() < 0.6:
+        m.le = float(g.normal())
+        m.lee = float(abs(g.normal()) * 0.1)
     return m, fields
 
 
@@ -188,7 +194,7 @@ def run_sequence(g, xpn, counters, viol):
     if m.weighted:
         m.le = float(to_np(s.log_evidence))
         m.lee = float(to_np(s.log_evidence_error))
-    compare(s, m, xpn, "construct", viol, judge_evidence=(cls_name == "SMCSamples"))
+    compare(s, m, xpn, "construct", viol, judge_evidence=(cls_name == "SMCSamples" or (cls_name == "Samples" and not m.weighted)))
     n_ops = int(g.integers(3, 13))
     kinds_done = []
     judged = 0
